@@ -79,7 +79,7 @@ type Blob struct {
 	Mem   *keyset.MemReaderWriter // MemReaderWriter
 }
 
-func (b *Blob) writer(format string) (keyset.Writer, *bytes.Buffer) {
+func (b *Blob) writer(format string, encrypted bool) (keyset.Writer, *bytes.Buffer) {
 	switch format {
 	case "binary":
 		buf := &bytes.Buffer{}
@@ -93,7 +93,10 @@ func (b *Blob) writer(format string) (keyset.Writer, *bytes.Buffer) {
 	b.Mem = &keyset.MemReaderWriter{}
 	decoy := &tinkpb.Keyset{PrimaryKeyId: 0x7E57, Key: []*tinkpb.Keyset_Key{{KeyId: 0x7E57, Status: tinkpb.KeyStatusType_ENABLED, OutputPrefixType: tinkpb.OutputPrefixType_TINK,
 		KeyData: &tinkpb.KeyData{TypeUrl: "type.googleapis.com/verif.keycat.Decoy", Value: []byte{1, 2, 3}, KeyMaterialType: tinkpb.KeyData_SYMMETRIC}}}}
-	b.Mem.Write(decoy)
+	if !encrypted {
+		b.Mem.Write(decoy)
+		return b.Mem, nil
+	}
 	b.Mem.WriteEncrypted(&tinkpb.EncryptedKeyset{EncryptedKeyset: []byte("decoy"), KeysetInfo: &tinkpb.KeysetInfo{PrimaryKeyId: 0x7E57,
 		KeyInfo: []*tinkpb.KeysetInfo_KeyInfo{{TypeUrl: "type.googleapis.com/verif.keycat.Decoy", KeyId: 0x7E57, Status: tinkpb.KeyStatusType_ENABLED, OutputPrefixType: tinkpb.OutputPrefixType_TINK}}}})
 	return b.Mem, nil
@@ -152,7 +155,7 @@ func IOs() []IO {
 // Write runs the writer half.
 func (io IO) Write(h *keyset.Handle) (*Blob, error) {
 	b := &Blob{}
-	w, buf := b.writer(io.Format)
+	w, buf := b.writer(io.Format, io.Kind == "encrypted")
 	var err error
 	switch io.API {
 	case "insecurecleartextkeyset":
